@@ -524,6 +524,15 @@ def run_worker(worker, wcases, timeout=120, env=None):
             desc = ("hang (timeout)" if timed_out else "crash rc=%s" % rc) + " " + (summ[0] + " " if summ else "") + tail
         crashes.append((culprit["id"], desc))
         pending = pending[n + 1:]
+        if "hang" in desc:
+            # a change that makes programs loop forever hangs case after case: after the first hang the rest of the chunk gets
+            # 30 s, after the third the chunk is abandoned (its unanswered cases are reported as such) -- the check must END
+            hangs = sum(1 for _i, d in crashes if "hang" in d)
+            timeout = 30
+            if hangs >= 3:
+                for c in pending:
+                    crashes.append((c["id"], "not run: the worker hung three times in this chunk"))
+                break
     return answers, crashes
 
 
